@@ -492,7 +492,8 @@ class World(object):
         src_owner = self.owner_of(src) if src is not None else who
         for k in list(self.pending_kills):
             when = k["when"]
-            if "label" not in when or label != when["label"]:
+            if "label" not in when or not (label == when["label"] or
+                                           (":" in when["label"] and label.startswith(when["label"] + ":"))):
                 continue
             own = (src_owner == k["target"])
             if (when.get("scope", "own") == "own") != own:
@@ -555,6 +556,27 @@ def run_one(cfg, decisions=None, keep_events=False):
     kd.tempfile = seams.TempfileProxy(world)
     kd.SAS_DLL_PATH = world.cache_dir
     G["names"][0] = 0
+    xdev_saved = None
+    if cfg.get("xdev"):
+        # TMPDIR and the cache directory on different file systems (tmpfs /tmp,
+        # cache under $HOME): rename/replace/link between them fail with EXDEV,
+        # for every module (shutil.move then falls back to copy + unlink)
+        import errno
+
+        def _fs(p):
+            p = os.path.abspath(p)
+            return "tmp" if p.startswith(world.tmp_dir + os.sep) else \
+                "cache" if p.startswith(world.cache_dir + os.sep) else "other"
+
+        def _guard(real):
+            def wrapper(src, dst, *a, **kw):
+                if _fs(src) != _fs(dst) and "other" not in (_fs(src), _fs(dst)):
+                    world.probe("cross_device_rename_refused")
+                    raise OSError(errno.EXDEV, "Invalid cross-device link (simulated)", src)
+                return real(src, dst, *a, **kw)
+            return wrapper
+        xdev_saved = (os.rename, os.replace, os.link)
+        os.rename, os.replace, os.link = _guard(os.rename), _guard(os.replace), _guard(os.link)
     harness_error = None
     n_proc = len(cfg["actors"])
     solo_max = G.get("solo_max", 400)
@@ -653,6 +675,8 @@ def run_one(cfg, decisions=None, keep_events=False):
         except baton.HarnessError as exc:
             harness_error = harness_error or str(exc)
         world.restore_pristine()
+        if xdev_saved is not None:
+            os.rename, os.replace, os.link = xdev_saved
         kd.subprocess, kd.ct, kd.os, kd.tempfile, kd.SAS_DLL_PATH = saved
         shutil.rmtree(run_dir, ignore_errors=True)
     # ---- summarise ------------------------------------------------------------
@@ -683,6 +707,7 @@ def run_one(cfg, decisions=None, keep_events=False):
 # ------------------------------------------------------------ configuration
 
 KILL_LABELS = [
+    ("shutil.py:copyfileobj", "own"),
     ("cc:created", "own"), ("cc:piece", "own"), ("cc:piece", "own"), ("cc:exit", "own"),
     ("os:unlink", "own"), ("os:mkstemp", "own"), ("os:exists", "other"),
     ("cc:read_src", "own"), ("ld:open", "other"), ("os:replace", "own"), ("os:rename", "own"),
@@ -744,7 +769,7 @@ def gen_config(run_seed, tier):
         cuts = sorted(c.random() for _ in range(k - 1))
         plans.append({"cuts": cuts, "mode": c.choice(["append", "append", "sparse"]), "fail": None})
     cfg = {"actors": actors, "policy": policy, "sched_seed": st["schedule"].getrandbits(48),
-           "cc_plans": plans, "kills": [], "fresh": "auto"}
+           "cc_plans": plans, "kills": [], "fresh": "auto", "xdev": c.random() < 0.4}
     # ---- faults: a swarm-style subset; one third of runs are fault-free ----
     if f.random() < 0.67:
         enabled = [k for k in ("kill_group", "kill_parent", "cc_fail", "io_fail") if f.random() < 0.6] \
@@ -785,6 +810,7 @@ def sweep_configs(tier):
             cfg["kills"] = [{"target": "P0", "group": group, "when": {"step": step}}]
             cfg["policy"] = {"kind": "sticky", "p": 1.0}
             cfg["family"] = "single_crash"
+            cfg["xdev"] = bool(step % 2)
             out.append(cfg)
     # single pre-emption: P0 paused at step i while P1 runs to completion
     for first, second in (("P0", "P1"), ("P1", "P0")):
@@ -839,6 +865,10 @@ def shrink_candidates(cfg, decisions):
         c = copy.deepcopy(cfg)
         del c["io_faults"][i]
         yield c, decisions
+    if cfg.get("xdev"):
+        c = copy.deepcopy(cfg)
+        c["xdev"] = False
+        yield c, decisions
     for i, p in enumerate(cfg["cc_plans"]):
         if p.get("fail"):
             c = copy.deepcopy(cfg)
@@ -871,7 +901,7 @@ def shrink_candidates(cfg, decisions):
 def sample_of(cfg, res):
     return {"actors": [[a["name"], a["loads"], a.get("start_at", 0)] + ([a["forked_from"]] if a.get("forked_from") else [])
                        for a in cfg["actors"]],
-            "policy": cfg["policy"]["kind"], "kills": cfg["kills"],
+            "policy": cfg["policy"]["kind"], "kills": cfg["kills"], "xdev": bool(cfg.get("xdev")),
             "cc_fail": [p["fail"] for p in cfg["cc_plans"] if p.get("fail")],
             "io_faults": cfg.get("io_faults", []),
             "steps": res["steps"], "switches": res["switches"],
